@@ -236,4 +236,34 @@ Section TwoLayerListing.
     rewrite bool_decide_eq_true_2 by eauto. cbn [fst snd].
     cbn. unfold mem_fs_call. rewrite ms_open_file. cbn [msec_sem]. rewrite Hf, Ht. reflexivity.
   Qed.
+  (** ** C05 on the overlay: the listing of a directory and exists tell one story - a name is listed by its
+      parent iff the child exists through the overlay.  The hypothesis on markers is the invariant the
+      overlay keeps between calls: an entry of the write layer has no marker (create removes it after
+      creating, remove sets it after removing) *)
+  Theorem listing_matches_exists (s0 s1 : mstate) (p : path) :
+    wf s0 -> wf s1 -> p <> [] ->
+    s0 !! whiteout_path top p = None ->
+    (is_dir s0 p \/ (s0 !! p = None /\ is_dir s1 p)) ->
+    (s0 !! (whiteout_name :: p) = None \/ is_dir s0 (whiteout_name :: p)) ->
+    (forall n, is_Some (s0 !! (p ++ [n])) -> s0 !! whiteout_path top (p ++ [n]) = None) ->
+    exists l, run bhandler (ovl_read_dir top lower p) (S2 s0 s1) = (S2 s0 s1, Ok l) /\
+      forall n, n ∈ l <-> run bhandler (ovl_exists top lower (p ++ [n])) (S2 s0 s1) = (S2 s0 s1, Ok true).
+  Proof.
+    intros Hwf0 Hwf1 Hp Hwo Hserved Hwdir Hinv.
+    destruct (read_dir_rule s0 s1 p (proj2 Hwf0) Hp Hwo Hserved Hwdir) as (l & Hrun & Hl).
+    exists l. split; [exact Hrun|]. intros n.
+    rewrite (exists_rule hs lg ft s0 s1 (p ++ [n])) by (destruct p; discriminate).
+    rewrite Hl. split.
+    - intros [[[_ H0]|[_ H1]] Hm].
+      + rewrite bool_decide_eq_true_2 by exact H0. reflexivity.
+      + rewrite Hm. rewrite (bool_decide_eq_false_2 (is_Some None)) by (intros [? ?]; discriminate).
+        rewrite (bool_decide_eq_true_2 _ H1). cbn. rewrite orb_true_r. reflexivity.
+    - intros E. injection E as E. apply orb_true_iff in E as [E|E].
+      + apply bool_decide_eq_true in E. split; [|apply Hinv; exact E]. left. split; [|exact E].
+        destruct E as [x Hx]. apply (proj2 Hwf0 p n x Hx).
+      + apply andb_true_iff in E as [Em E1]. apply bool_decide_eq_true in E1. apply negb_true_iff, bool_decide_eq_false in Em.
+        split.
+        * right. split; [|exact E1]. destruct E1 as [x Hx]. apply (proj2 Hwf1 p n x Hx).
+        * destruct (s0 !! whiteout_path top (p ++ [n])) eqn:E; [exfalso; apply Em; eauto|reflexivity].
+  Qed.
 End TwoLayerListing.
